@@ -79,25 +79,40 @@ def run(prop, tier, seed, nworkers, only=None):
         log = open(os.path.join(outdir, f"w{w}.log"), "w")
         procs.append((subprocess.Popen(cmd, cwd=VERIF_DIR, env=env, stdout=log, stderr=log), out, log))
     budget = float(os.environ.get("VERIF_TIMEOUT_S", "2400" if tier == "quick" else "28800"))
+    stall = float(os.environ.get("VERIF_STALL_S", "420"))
     deadline = t0 + budget
-    for w, (p, out, log) in enumerate(procs):
-        try:
-            p.wait(timeout=max(1.0, deadline - time.time()))
-        except subprocess.TimeoutExpired:
-            # Inconclusive, never a violation: the worker is killed and reported as harness error.
-            p.kill()
-            p.wait()
-            errors.append(f"worker {w} exceeded the time budget of {budget:.0f}s (inconclusive)")
-        log.close()
-        if os.path.exists(out):
-            with open(out) as fh:
-                results.append(json.load(fh))
-            if results[-1]["error"]:
-                errors.append(f"worker {w}: {results[-1]['error']}")
-        elif not any(e.startswith(f"worker {w} ") for e in errors):
-            with open(log.name) as fh:
-                tail = fh.read()[-3000:]
-            errors.append(f"worker {w} died (exit {p.returncode}) without result:\n{tail}")
+    running = dict(enumerate(procs))
+    while running:
+        time.sleep(0.5)
+        now = time.time()
+        for w, (p, out, log) in list(running.items()):
+            reason = None
+            if p.poll() is None:
+                hb = out + ".hb"
+                last = os.path.getmtime(hb) if os.path.exists(hb) else t0
+                if now > deadline:
+                    reason = f"exceeded the time budget of {budget:.0f}s"
+                elif now - last > stall:
+                    reason = f"made no progress for {stall:.0f}s (a case does not terminate)"
+                else:
+                    continue
+                # Inconclusive, never a violation: the worker is killed; what it had found and
+                # counted up to its last checkpoint is kept.
+                p.kill()
+                p.wait()
+                errors.append(f"worker {w} {reason} (inconclusive)")
+            del running[w]
+            log.close()
+            path = out if os.path.exists(out) else out + ".partial"
+            if os.path.exists(path):
+                with open(path) as fh:
+                    results.append(json.load(fh))
+                if results[-1]["error"]:
+                    errors.append(f"worker {w}: {results[-1]['error']}")
+            elif reason is None:
+                with open(log.name) as fh:
+                    tail = fh.read()[-3000:]
+                errors.append(f"worker {w} died (exit {p.returncode}) without result:\n{tail}")
     # Merge.
     merged = {}
     failures = []
@@ -121,6 +136,9 @@ def run(prop, tier, seed, nworkers, only=None):
 
     shutil.rmtree(outdir, ignore_errors=True)
 
+    ntimeouts = sum(m["extra"].get("case_timeouts", 0) for m in merged.values())
+    if ntimeouts:
+        errors.append(f"{ntimeouts} case(s) exceeded the per-case watchdog (inconclusive)")
     known = load_known(prop)
     known_hits = {}
     for m in merged.values():
